@@ -99,12 +99,26 @@ def boot(parallel="True", threads="1", layer="workqueue", cache=True, quiet=True
         numba.config.CACHE_DIR = cache_dir
         real_njit = numba.njit
 
+        def _cacheable(func):
+            # kernels that take another jitted function as an argument cannot be reloaded from numba's on-disk
+            # cache in a fresh process (ReferenceError: underlying object has vanished)
+            ann = getattr(func, "__annotations__", {})
+            return not any("Callable" in str(a) for a in ann.values())
+
         def njit_cached(*args, **kwargs):
             # bare decorator use: @njit
             if len(args) == 1 and callable(args[0]) and not kwargs:
-                return real_njit(cache=True)(args[0])
-            kwargs["cache"] = True
-            return real_njit(*args, **kwargs)
+                return real_njit(cache=_cacheable(args[0]))(args[0])
+            kw = dict(kwargs)
+
+            def deco(func):
+                if _cacheable(func):
+                    kw["cache"] = True
+                else:
+                    kw.pop("cache", None)
+                return real_njit(*args, **kw)(func)
+
+            return deco
 
         numba.njit = njit_cached
 
